@@ -118,3 +118,10 @@ Theorem C11_kaiser_old_pair_refuted : exists h eps x : R,
   (h + eps <> 0 /\ C11_varimax_tie.kaiser_denorm_old h eps * (T5rot.kaiser_norm OR h eps * x) <> x)%R.
 Proof. exact C11_varimax_tie.kaiser_old_pair_refuted. Qed.
 Print Assumptions C11_kaiser_old_pair_refuted.
+
+(* the functions of this property whose Gallina counterpart is hand-written (or that only the oracles reach) still read, statement by statement, as they did when
+   the model was last validated against them (Gen/T9text.v regenerated from the source on every run; Proofs/Text_C11.v holds the validated text) *)
+From XV Require Gen.T9text Proofs.Text_C11.
+Theorem C11_hand_modelled_functions_read_as_validated : Text_C11.all_frozen.
+Proof. exact Text_C11.all_frozen_holds. Qed.
+Print Assumptions C11_hand_modelled_functions_read_as_validated.
